@@ -1251,26 +1251,14 @@ func runRegOps(pool []poolItem, ops []string) (string, []string) {
 	return out, viol
 }
 
-// derivedLists: several lists derived from one - the library's per-product list, or a caller's common list copied by value -
-// each filtered and then extended on its own. Once a list has been filtered (or handed out by the factory) its four sequences
-// are its own: what is appended to one list never shows up in, or overwrites the tail of, another. Decided by the reference
-// sequences alone (no model line: the model's values cannot alias).
+// derivedLists: two callers get the list of the same product from the library and extend it differently: what one appends
+// never shows up in, or overwrites the tail of, the other's list, and a third caller gets the product's list as it was.
+// Decided by the reference sequences alone (no model line: the model's values cannot alias).
 func derivedLists(s *Sink, pool []poolItem, rng *Rng) {
 	n := 0
 	seqOf := func(rl *veregister.RegisterList) string {
 		p := seqStrings(rl)
 		return strings.Join(p[0], ",") + "|" + strings.Join(p[1], ",") + "|" + strings.Join(p[2], ",") + "|" + strings.Join(p[3], ",")
-	}
-	refOf := func(ref [5][]poolItem) string {
-		var parts []string
-		for k := 1; k <= 4; k++ {
-			var w []string
-			for _, it := range ref[k] {
-				w = append(w, shortReg(k, it.reg()))
-			}
-			parts = append(parts, strings.Join(w, ","))
-		}
-		return strings.Join(parts, "|")
 	}
 	appendItem := func(rl *veregister.RegisterList, ref *[5][]poolItem, it poolItem) {
 		switch it.kind {
@@ -1288,68 +1276,9 @@ func derivedLists(s *Sink, pool []poolItem, rng *Rng) {
 	extra := func(kind, i int) poolItem {
 		return synthItem(fmt.Sprintf("%d.%d.derived%d", kind, 500+i, i))
 	}
-	// (1) a caller's common list, copied by value; every copy filtered (by a name that touches one kind only, by a predicate that
-	// keeps everything, by one that keeps nothing of one kind) and then extended with one register of every kind
-	filters := []struct {
-		name string
-		f    func(rl *veregister.RegisterList)
-		keep func(it poolItem) bool
-	}{
-		{"FilterByName(one number register)", nil, nil},
-		{"FilterRegister(keep all)", func(rl *veregister.RegisterList) { rl.FilterRegister(func(veregister.Register) bool { return true }) }, func(poolItem) bool { return true }},
-		{"FilterRegister(drop texts)", func(rl *veregister.RegisterList) {
-			rl.FilterRegister(func(r veregister.Register) bool { return kindOf(r) != 2 })
-		}, func(it poolItem) bool { return it.kind != 2 }},
-		{"FilterByName()", func(rl *veregister.RegisterList) { rl.FilterByName() }, func(poolItem) bool { return true }},
-	}
-	for round := 0; round < 6; round++ {
-		common := veregister.NewRegisterList()
-		var cref [5][]poolItem
-		for k := 0; k < 5+round*3; k++ { // one by one: the backing arrays end up with spare capacity
-			appendItem(&common, &cref, pool[rng.Intn(len(pool))])
-		}
-		firstNum := ""
-		if len(cref[1]) > 0 {
-			firstNum = cref[1][0].reg().Name()
-		}
-		filters[0].f = func(rl *veregister.RegisterList) { rl.FilterByName(firstNum) }
-		filters[0].keep = func(it poolItem) bool { return it.reg().Name() != firstNum }
-		type derived struct {
-			rl   veregister.RegisterList
-			ref  [5][]poolItem
-			desc string
-		}
-		var ds []*derived
-		for di := 0; di < 4; di++ {
-			fl := filters[(di+round)%len(filters)]
-			d := &derived{rl: common, desc: fmt.Sprintf("list %d = copy of a common list, %s", di, fl.name)}
-			fl.f(&d.rl)
-			for k := 1; k <= 4; k++ {
-				for _, it := range cref[k] {
-					if fl.keep(it) {
-						d.ref[k] = append(d.ref[k], it)
-					}
-				}
-			}
-			ds = append(ds, d)
-		}
-		for di, d := range ds {
-			for kind := 1; kind <= 4; kind++ {
-				appendItem(&d.rl, &d.ref, extra(kind, di*4+kind))
-			}
-			d.desc += ", then one register of every kind appended"
-		}
-		for di, d := range ds {
-			n++
-			if got, want := seqOf(&d.rl), refOf(d.ref); got != want {
-				s.Violate(fmt.Sprintf("derived lists round %d: %s", round, d.desc), got[:min(300, len(got))], fmt.Sprintf("after the OTHER derived lists were extended too, list %d holds [%s]; its own history (filter, appends) gives [%s]", di, got[:min(400, len(got))], want[:min(400, len(want))]))
-			}
-		}
-		if got, want := seqOf(&common), refOf(cref); got != want {
-			s.Violate(fmt.Sprintf("derived lists round %d: the common list", round), got[:min(300, len(got))], "the common list changed although only filtered copies of it were extended")
-		}
-	}
-	// (2) the library's own per-product lists: two callers get the list of the same product and extend it differently
+	// the library's own per-product lists: two callers get the list of the same product and extend it differently
+	// (lists a caller copied by value share their backing arrays by the rules of the language - in the unchanged code as well -
+	// and are the caller's business: see DESIGN.md §9, C16-M)
 	for _, id := range []uint16{0x203, 0xA381, 0xA056, 0xA053, 0xA231} {
 		base, err := veregister.GetRegisterListByProduct(veproduct.Product(id))
 		if err != nil {
